@@ -45,8 +45,9 @@ class Ctx:
     def explain(self, text):
         self.explanations.append(text)
 
-    def ob(self, rule, key, ok, detail="", nontrivial=True, sample=None):
-        """one examined rule instance. `key` is line-free and stable."""
+    def ob(self, rule, key, ok, detail="", nontrivial=True, sample=None, report=True):
+        """one examined rule instance. `key` is line-free and stable.
+        report=False: count a failing instance but leave the VIOLATION to an aggregated obligation"""
         self.evaluations += 1
         rc = self.rule_counts.setdefault(rule, [0, 0, 0])
         rc[0] += 1
@@ -55,7 +56,8 @@ class Ctx:
             rc[1] += 1
         if not ok:
             rc[2] += 1
-            self.violations.append((rule, key, detail))
+            if report:
+                self.violations.append((rule, key, detail))
         if sample is not None or (len([s for s in self.samples if s.get("rule") == rule]) < 2):
             if len(self.samples) < 40:
                 self.samples.append({"rule": rule, "instance": key, "verdict": "ok" if ok else "VIOLATION",
